@@ -1,5 +1,7 @@
 import F3.Proofs.InstanceRun
 import F3.Proofs.ParticipantRun
+import F3.Proofs.InstanceGen
+import F3.Proofs.MultiParticipantEx
 /-!
 # C07 — protocol discipline of an honest participant (Layer B, on the executable model of `gpbft.go`)
 
@@ -359,5 +361,300 @@ example :
     simp at this
 
 end ParticipantAPI
+
+section Regenerated
+/-! ## Regenerated: the pre-checks of `receiveOne` and of `messageQueue.Add` as they stand in the source
+
+`F3.Gen.Instance.{isSpammable, receiveOnePre, queueAddDropsSpam, queueAddIsDuplicate}` are translated from
+`gpbft/gpbft.go` / `gpbft/participant.go` on every run (`tools/go2lean/targets.d/Instance.json`):
+`receiveOnePre` is the statement range of `receiveOne` from the instance check down to (excluding)
+`msgRound := i.getRound(…)`, with the codes 0 = `return false, nil` (dropped), 1 = falls through to the
+tallies, 2/3/4 = the three sentinel errors; the phase constants are read from `gpbft/types.go`; the
+three method calls on the supplemental data / the value are parameters. -/
+open F3.Proofs.InstanceGen
+
+/-- the return codes of `receiveOnePre` in `targets.d/Instance.json` -/
+def decodePre (c : Int) : Pre :=
+  if c = 0 then .drop else if c = 1 then .accept else if c = 2 then .reject .wrongInstance
+  else if c = 3 then .reject .wrongSupp else .reject .wrongBase
+
+/-- `isSpammable` of the model is `isSpammable` of `gpbft.go`. -/
+theorem is_spammable_is_regenerated (m : Msg) :
+    isSpammable m = F3.Gen.Instance.isSpammable m.just.isSome (m.round : Int) := by
+  unfold isSpammable F3.Gen.Instance.isSpammable
+  rw [isNone_eq_not_isSome]
+  congr 1
+  rw [decide_eq_decide]; omega
+
+/-- **The model's pre-checks are the source's.** For every state and message — `id`/`mid` are any two
+instance numbers whose equality is the model's `instOk` flag — the verdict of `State.recvPre` (reject with
+which sentinel / silently drop / hand to the tallies) is the one the regenerated statement range of
+`receiveOne` computes, as long as `current.Round + maxLookaheadRounds` does not wrap (the model adds in
+`Nat`; the generated code wraps). The order of the checks, the prior-round rule for CONVERGE/PREPARE, the
+look-ahead spam rule and the TERMINATED no-op are all covered. -/
+theorem recv_pre_is_regenerated (s : State) (m : Msg) (id mid : Int) (hid : decide (mid = id) = m.instOk)
+    (hw : s.round + s.cfg.maxLookahead < 2 ^ 64) :
+    s.recvPre m = decodePre (F3.Gen.Instance.receiveOnePre id s.phase.toNat s.round s.cfg.maxLookahead
+      m.just.isSome mid m.phase.toNat m.round m.suppOk (hasBase m.value s.input.head?) m.value.isEmpty) := by
+  unfold State.recvPre F3.Gen.Instance.receiveOnePre F3.Gen.Instance.isSpammable isSpammable
+  have a0 : decide (mid ≠ id) = !m.instOk := by rw [← hid]; simp
+  have a1 : decide (((s.phase.toNat : Nat) : Int) = 6) = (s.phase == .terminated) := by
+    rw [phase_beq_code]; rfl
+  have a2 : decide (((m.phase.toNat : Nat) : Int) = 2) = (m.phase == .converge) := by
+    rw [phase_beq_code]; rfl
+  have a3 : decide (((m.phase.toNat : Nat) : Int) = 3) = (m.phase == .prepare) := by
+    rw [phase_beq_code]; rfl
+  have a4 : decide ((m.round : Int) < (s.round : Int)) = decide (m.round < s.round) := by
+    rw [decide_eq_decide]; omega
+  have a5 : decide ((m.round : Int) > F3.GoInt.u64 ((s.round : Int) + (s.cfg.maxLookahead : Int))) =
+      decide (m.round > s.round + s.cfg.maxLookahead) := by
+    rw [decide_eq_decide, F3.Proofs.GenTie.u64_of_lt _ (by omega) (by omega)]; omega
+  have a6 : decide ((m.round : Int) > 0) = decide (m.round > 0) := by
+    rw [decide_eq_decide]; omega
+  simp only [a0, a1, a2, a3, a4, a5, a6, isNone_eq_not_isSome]
+  generalize m.instOk = b1
+  generalize m.suppOk = b2
+  generalize m.value.isEmpty = b3
+  generalize hasBase m.value s.input.head? = b4
+  generalize (s.phase == Phase.terminated) = b5
+  generalize decide (m.round < s.round) = b6
+  generalize (m.phase == Phase.converge) = b7
+  generalize (m.phase == Phase.prepare) = b8
+  generalize decide (m.round > s.round + s.cfg.maxLookahead) = b9
+  generalize m.just.isSome = b10
+  generalize decide (m.round > 0) = b11
+  cases b1 <;> (try rfl) <;> cases b2 <;> (try rfl) <;> cases b3 <;> (try rfl) <;> cases b4 <;> (try rfl) <;>
+    cases b5 <;> (try rfl) <;> cases b6 <;> (try rfl) <;> cases b7 <;> (try rfl) <;> cases b8 <;> (try rfl) <;>
+    cases b9 <;> (try rfl) <;> cases b10 <;> (try rfl) <;> cases b11 <;> rfl
+
+/-- **`messageQueue.Add` of the model is the source's.** The two conditions under which a message queued
+for a future instance is discarded — unjustified beyond `maxRound`, and same sender / round / phase as a
+queued one — are the regenerated ones, for all rounds (no arithmetic is involved, so no range
+hypothesis). -/
+theorem queue_add_is_regenerated (p : PState) (m : Msg) :
+    p.queueAdd m =
+      if F3.Gen.Instance.queueAddDropsSpam m.just.isSome m.round p.inst.cfg.maxLookahead then p
+      else if p.queue.any (fun q => q.sender == m.sender &&
+          F3.Gen.Instance.queueAddIsDuplicate q.phase.toNat q.round m.phase.toNat m.round) then p
+      else { p with queue := p.queue ++ [m] } := by
+  unfold PState.queueAdd F3.Gen.Instance.queueAddDropsSpam F3.Gen.Instance.queueAddIsDuplicate
+  have a1 : decide ((m.round : Int) > (p.inst.cfg.maxLookahead : Int)) =
+      decide (m.round > p.inst.cfg.maxLookahead) := by
+    rw [decide_eq_decide]; omega
+  have a2 : ∀ q : Msg, (q.sender == m.sender &&
+        (decide ((q.round : Int) = (m.round : Int)) && decide ((q.phase.toNat : Int) = (m.phase.toNat : Int)))) =
+      (q.sender == m.sender && q.round == m.round && q.phase == m.phase) := by
+    intro q
+    have e1 : decide ((q.round : Int) = (m.round : Int)) = (q.round == m.round) := by
+      rw [Bool.beq_eq_decide_eq, decide_eq_decide]; omega
+    rw [e1, ← phase_beq_code, Bool.and_assoc]
+  simp only [a1, a2, ← is_spammable_is_regenerated]
+
+/-- `q.maxRound` is the participant's `maxLookaheadRounds`: the one constructor call, from the source -/
+theorem queue_max_round_call_site :
+    F3.Gen.Instance.callSites = [("gpbft/participant.go", "newMessageQueue", ["opts.maxLookaheadRounds"])] := by
+  decide
+
+-- non-vacuity: every verdict of the pre-checks is reached, by the model and by the generated code
+example :
+    let s := ((init exCfg exTbl [7, 8]).beginQuality 0).1
+    s.recvPre { sender := 1, round := 0, phase := .quality, value := [7, 8] } = .accept ∧
+    s.recvPre { sender := 1, round := 0, phase := .quality, value := [7, 8], instOk := false } = .reject .wrongInstance ∧
+    s.recvPre { sender := 1, round := 0, phase := .quality, value := [9], suppOk := true } = .reject .wrongBase ∧
+    s.recvPre { sender := 1, round := 9, phase := .prepare, value := [7, 8] } =
+      (if 9 > exCfg.maxLookahead then .drop else .accept) := by decide
+example : F3.Gen.Instance.receiveOnePre 4 1 3 5 false 4 3 2 true true false = 0 ∧   -- PREPARE of a prior round
+    F3.Gen.Instance.receiveOnePre 4 1 3 5 false 4 4 2 true true false = 1 ∧          -- COMMIT of a prior round
+    F3.Gen.Instance.receiveOnePre 4 1 3 5 false 4 4 9 true true false = 0 ∧          -- spam beyond look-ahead
+    F3.Gen.Instance.receiveOnePre 4 1 3 5 true 4 4 9 true true false = 1 ∧           -- justified: kept
+    F3.Gen.Instance.receiveOnePre 4 6 3 5 true 4 4 3 true true false = 0 ∧           -- TERMINATED
+    F3.Gen.Instance.receiveOnePre 4 1 3 5 true 5 4 3 true true false = 2 ∧
+    F3.Gen.Instance.receiveOnePre 4 1 3 5 true 4 4 3 false true false = 3 ∧
+    F3.Gen.Instance.receiveOnePre 4 1 3 5 true 4 4 3 true false false = 4 := by decide
+example : F3.Gen.Instance.queueAddDropsSpam false 7 5 = true ∧ F3.Gen.Instance.queueAddDropsSpam true 7 5 = false ∧
+    F3.Gen.Instance.queueAddIsDuplicate 3 2 3 2 = true ∧ F3.Gen.Instance.queueAddIsDuplicate 3 2 4 2 = false := by decide
+
+end Regenerated
+/-! ## The discipline across consecutive instances (`gpbft/participant.go`: `ReceiveMessage`, `ReceiveAlarm`,
+`beginInstance`, `handleDecision`, `beginNextInstance`, `StartInstanceAt`, `messageQueue`)
+
+`mpstep` (`F3.Model.MultiParticipant`) is one call of `gpbft.Participant` with its instance counter `cur`
+(`progression`), the running instance `active` (`p.gpbft`), one message queue per future instance
+(`mqueue.messages`) and the `decisions` handed to the host; `mprun` runs a sequence of calls, each effect tagged with
+the instance that was current. The correspondence driver replays it against the real participant in the
+multi-instance network runs. `minit cfg c0` is the fresh participant at instance `c0`. -/
+section ConsecutiveInstances
+
+/-- **Isolation, past.** A message of a finished instance changes nothing and has no effects. -/
+theorem finished_instance_message_dropped (s : MState) (now : Int) (m : IMsg) (h : m.inst < s.cur) :
+    mpstep s (.recv now m) = (s, []) :=
+  recv_finished s now m h
+
+/-- **Isolation, future.** A message of a later instance, or of the current instance before it has begun, has no
+effects and leaves `cur`, the running instance, the decisions, the configuration and every other instance's queue
+untouched; the queue of its own instance receives it by `messageQueue.Add`. -/
+theorem future_instance_message_queued (s : MState) (now : Int) (m : IMsg)
+    (h : s.cur < m.inst ∨ (m.inst = s.cur ∧ s.active = none)) :
+    (mpstep s (.recv now m)).2 = [] ∧
+    (mpstep s (.recv now m)).1.cur = s.cur ∧ (mpstep s (.recv now m)).1.active = s.active ∧
+    (mpstep s (.recv now m)).1.decisions = s.decisions ∧ (mpstep s (.recv now m)).1.cfg = s.cfg ∧
+    (∀ j, j ≠ m.inst → queueOf (mpstep s (.recv now m)).1.queues j = queueOf s.queues j) ∧
+    queueOf (mpstep s (.recv now m)).1.queues m.inst =
+      queueAddL s.cfg.maxLookahead (queueOf s.queues m.inst) m.msg :=
+  recv_queued s now m h
+
+/-- **The queue rule is that of the single-instance participant** (`PState.queueAdd`), and spelled out: an
+unjustified message beyond the look-ahead is not queued, a message whose (sender, round, phase) slot is taken is
+not queued, any other message is appended. -/
+theorem instance_queue_rule (look : Nat) (q : List Msg) (m : Msg) :
+    (∀ p : PState, look = p.inst.cfg.maxLookahead → queueAddL look p.queue m = (p.queueAdd m).queue) ∧
+    (look < m.round → isSpammable m = true → queueAddL look q m = q) ∧
+    (∀ x ∈ q, sameSlot x m → queueAddL look q m = q) ∧
+    (¬ (look < m.round ∧ isSpammable m = true) → (∀ x ∈ q, ¬ sameSlot x m) → queueAddL look q m = q ++ [m]) :=
+  ⟨fun p h => queueAddL_eq_queueAdd look p m h, queueAddL_spam look q m, fun x hx hs => queueAddL_dup look q m x hx hs,
+   queueAddL_fresh look q m⟩
+
+/-- **Every queue of every reachable state** — whatever the calls, `StartInstanceAt` in any direction included —
+**holds at most one message per (sender, round, phase) and no unjustified message beyond the look-ahead.** -/
+theorem instance_queues_wellformed (cfg : Cfg) (c0 : Nat) (ops : List MPOp) (k : Nat) :
+    (queueOf (mprun (minit cfg c0) ops).1.queues k).Pairwise (fun a b => ¬ sameSlot a b) ∧
+    ∀ x ∈ queueOf (mprun (minit cfg c0) ops).1.queues k, ¬ (cfg.maxLookahead < x.round ∧ isSpammable x = true) := by
+  have h := mprun_queuesOk (minit cfg c0) ops (minit_queuesOk cfg c0) k
+  rw [mprun_cfg] at h
+  exact h
+
+/-- **One call other than `StartInstanceAt`**: either `cur` and `decisions` are unchanged, or exactly one decision —
+for the instance that was current — is appended, `cur` increases by exactly one and no instance is running. -/
+theorem instance_counter_step (s : MState) (op : MPOp) (h : op.isStartAt = false) :
+    ((mpstep s op).1.cur = s.cur ∧ (mpstep s op).1.decisions = s.decisions) ∨
+    ∃ d, (mpstep s op).1.cur = s.cur + 1 ∧ (mpstep s op).1.decisions = s.decisions ++ [(s.cur, d)] ∧
+      (mpstep s op).1.active = none :=
+  mpstep_counter s op h
+
+/-- **Monotone instance counter.** Along any run without `StartInstanceAt`, `cur` never decreases and the
+decisions appended by the run are for exactly the instances `cur, cur + 1, …, cur' - 1`, in this order: one decision
+per increment, one increment per decision. -/
+theorem instance_counter_run (s : MState) (ops : List MPOp) (h : noStartAt ops = true) :
+    s.cur ≤ (mprun s ops).1.cur ∧
+    ∃ ds : List (Nat × Just), (mprun s ops).1.decisions = s.decisions ++ ds ∧
+      ds.map (·.1) = List.range' s.cur ((mprun s ops).1.cur - s.cur) :=
+  mprun_counter s ops h
+
+/-- **`decisions` is append-only** along every run, `StartInstanceAt` in any direction included. -/
+theorem decisions_append_only (s : MState) (ops : List MPOp) : s.decisions <+: (mprun s ops).1.decisions :=
+  mprun_decisions_prefix s ops
+
+/-- `StartInstanceAt k` (any `k`: the Go code accepts every instance, smaller ones included): the counter becomes
+`k`, the running instance is dropped without a decision being recorded, the queues of instances `≥ k` are kept and
+those below `k` discarded; no effects. -/
+theorem start_instance_at (s : MState) (k : Nat) :
+    (mpstep s (.startAt k)).1.cur = k ∧ (mpstep s (.startAt k)).1.active = none ∧
+    (mpstep s (.startAt k)).1.decisions = s.decisions ∧ (mpstep s (.startAt k)).2 = [] ∧
+    (∀ j, k ≤ j → queueOf (mpstep s (.startAt k)).1.queues j = queueOf s.queues j) ∧
+    (∀ j, j < k → queueOf (mpstep s (.startAt k)).1.queues j = []) :=
+  mpstep_startAt s k
+
+/-- **At most one decision per instance.** In a run from the fresh participant in which no `StartInstanceAt k` goes
+backwards (`cur ≤ k` at the time of the call — `noBackward`), `cur` never decreases below its start, the instance
+ids of the recorded decisions are strictly increasing and below `cur`, and no instance has two decisions. (With a
+backward `StartInstanceAt` this fails: `F3.Bridge.ex_backward`, second example below.) -/
+theorem one_decision_per_instance (cfg : Cfg) (c0 : Nat) (ops : List MPOp)
+    (h : noBackward (minit cfg c0) ops = true) :
+    c0 ≤ (mprun (minit cfg c0) ops).1.cur ∧
+    ((mprun (minit cfg c0) ops).1.decisions.map (·.1)).Pairwise (· < ·) ∧
+    (∀ e ∈ (mprun (minit cfg c0) ops).1.decisions, e.1 < (mprun (minit cfg c0) ops).1.cur) ∧
+    ∀ k d d', (k, d) ∈ (mprun (minit cfg c0) ops).1.decisions → (k, d') ∈ (mprun (minit cfg c0) ops).1.decisions →
+      d = d' := by
+  have hs := mprun_decSorted (minit cfg c0) ops (minit_decSorted cfg c0) h
+  exact ⟨hs.2, hs.1.1, hs.1.2, fun k d d' => decSorted_unique _ hs.1 k d d'⟩
+
+/-- **At most one message per round and step, in every instance of a multi-instance run.** In a run from the fresh
+participant in which `StartInstanceAt` only skips ahead (`forwardOnly`), over validated messages, for every
+instance `k` that was begun and for which no internal error or panic was reported: the participant never requested
+two broadcasts for the same (round, phase) of instance `k`. (`emit_once_participant` through the per-instance
+projection `F3.Props.C01.consecutive_instances_projection`.) -/
+theorem emit_once_consecutive_instances (cfg : Cfg) (c0 : Nat) (ops : List MPOp) (k : Nat) (tbl : Table)
+    (input : Chain) (order : List Pid) (hfw : forwardOnly (minit cfg c0) ops = true)
+    (hbeg : begunWith cfg c0 k ops = some (tbl, input, order))
+    (hops : ∀ op ∈ ops, MPOpP MsgOk op)
+    (hnf : hasFailure (effsOf k (mprun (minit cfg c0) ops).2) = false) :
+    ((effsOf k (mprun (minit cfg c0) ops).2).filterMap slotOf).Nodup := by
+  have hp := (instance_projection cfg c0 ops k tbl input order hfw hbeg).1
+  rw [hp] at hnf ⊢
+  exact emit_once_participant cfg tbl input order _ (opsOf_P MsgOk cfg c0 k ops hops) hnf
+
+/-- **Progress never moves backwards within an instance of a multi-instance run**: the (round, phase) points
+notified while instance `k` was current are strictly increasing. -/
+theorem progress_monotone_consecutive_instances (cfg : Cfg) (c0 : Nat) (ops : List MPOp) (k : Nat) (tbl : Table)
+    (input : Chain) (order : List Pid) (hfw : forwardOnly (minit cfg c0) ops = true)
+    (hbeg : begunWith cfg c0 k ops = some (tbl, input, order))
+    (hops : ∀ op ∈ ops, MPOpP MsgOk op)
+    (hnf : hasFailure (effsOf k (mprun (minit cfg c0) ops).2) = false) :
+    ((effsOf k (mprun (minit cfg c0) ops).2).filterMap progOf).Pairwise ptLt := by
+  have hp := (instance_projection cfg c0 ops k tbl input order hfw hbeg).1
+  rw [hp] at hnf ⊢
+  exact (progress_monotone_participant cfg tbl input order _ (opsOf_P MsgOk cfg c0 k ops hops) hnf).1
+
+/-- a run that reports no failure at all reports none for any instance -/
+theorem no_failure_per_instance (k : Nat) (l : List (Nat × Eff)) (h : hasFailure (l.map (·.2)) = false) :
+    hasFailure (effsOf k l) = false :=
+  effsOf_nofail k l h
+
+/-! ### Non-vacuity: the two-instance execution `F3.Instance.exMOps` (`F3.Proofs.MultiParticipantEx`: four equal
+members; instance 0 decides `[7,8]`; a message for instance 1 arrives while instance 0 is running and is queued; a
+message for instance 0 arrives after it finished and is dropped; instance 1 begins, drains its queue of three messages
+and decides `[8,5]`) -/
+
+/-- hypotheses of `finished_instance_message_dropped` (18th call: a DECIDE for instance 0 while `cur = 1`) and of
+`future_instance_message_queued` (7th call: a message for instance 1 while instance 0 is running; 19th call: a message
+for instance 1, current but not begun), and the queue of instance 1 just before it begins -/
+example :
+    (0 : Nat) < (mprun (minit mxCfg) (exMOps.take 17)).1.cur ∧
+    (mprun (minit mxCfg) (exMOps.take 6)).1.cur < 1 ∧
+    (mprun (minit mxCfg) (exMOps.take 6)).1.active.isSome = true ∧
+    ((mprun (minit mxCfg) (exMOps.take 18)).1.cur = 1 ∧
+      (mprun (minit mxCfg) (exMOps.take 18)).1.active.isNone = true) ∧
+    (queueOf (mprun (minit mxCfg) (exMOps.take 20)).1.queues 1).map (·.sender) = [2, 1, 4] := by
+  decide +kernel
+
+/-- hypotheses of `instance_counter_run`, `one_decision_per_instance`, `emit_once_consecutive_instances` and
+`progress_monotone_consecutive_instances` (both instances), and what they yield here -/
+example :
+    noStartAt exMOps = true ∧ noBackward (minit mxCfg) exMOps = true ∧
+    forwardOnly (minit mxCfg) exMOps = true ∧
+    begunWith mxCfg 0 0 exMOps = some (mxTbl, [7, 8], mxOrder) ∧
+    begunWith mxCfg 0 1 exMOps = some (mxTbl, [8, 5], [1, 4, 2]) ∧
+    (∀ op ∈ exMOps, MPOpP MsgOk op) ∧
+    hasFailure ((mprun (minit mxCfg) exMOps).2.map (·.2)) = false ∧
+    (mprun (minit mxCfg) exMOps).1.cur = 2 ∧
+    (mprun (minit mxCfg) exMOps).1.decisions.map (fun e => (e.1, e.2.value)) = [(0, [7, 8]), (1, [8, 5])] ∧
+    (effsOf 0 (mprun (minit mxCfg) exMOps).2).filterMap slotOf =
+      [(0, .quality), (0, .prepare), (0, .commit), (0, .decide)] ∧
+    (effsOf 1 (mprun (minit mxCfg) exMOps).2).filterMap slotOf =
+      [(0, .quality), (0, .prepare), (0, .commit), (0, .decide)] := by
+  refine ⟨ex_forward.1, ex_forward.2.1, ex_forward.2.2, ex_opsOf.2.2.1, ex_opsOf.2.2.2.1, ex_msgs_ok,
+    ex_projection.2.2.2.2, by decide +kernel, by decide +kernel, by decide +kernel, by decide +kernel⟩
+
+/-- **A backward `StartInstanceAt` breaks "one decision per instance"**: after instance 0 was decided,
+`StartInstanceAt 0` makes the participant run instance 0 again (here with another proposal) and hand the host a
+second, different decision for instance 0; `decisions` is still only appended to. -/
+example :
+    noBackward (minit mxCfg) exBackOps = false ∧
+    (mprun (minit mxCfg) (exBackOps.take 18)).1.cur = 0 ∧
+    (mprun (minit mxCfg) (exBackOps.take 18)).1.decisions.map (fun e => (e.1, e.2.value)) = [(0, [7, 8])] ∧
+    (mprun (minit mxCfg) exBackOps).1.decisions.map (fun e => (e.1, e.2.value)) = [(0, [7, 8]), (0, [8, 5])] :=
+  ⟨ex_backward.1, by decide +kernel, by decide +kernel, ex_backward.2.1⟩
+
+/-- **`forwardOnly` is needed for the per-instance statements**: `StartInstanceAt 0` while instance 0 is running does
+not go backwards but restarts the instance; the participant then broadcasts QUALITY a second time for instance 0 —
+for another chain if the host proposes another one. (The production host calls `StartInstanceAt` only to skip
+ahead: `host.go: receiveCertificate` returns when `currentInstance >= nextInstance`.) -/
+example :
+    noBackward (minit mxCfg) exRestartOps = true ∧ forwardOnly (minit mxCfg) exRestartOps = false ∧
+    (effsOf 0 (mprun (minit mxCfg) exRestartOps).2).filterMap slotOf =
+      [(0, .quality), (0, .prepare), (0, .quality)] :=
+  ⟨ex_restart.1, ex_restart.2.1, by decide +kernel⟩
+
+end ConsecutiveInstances
 
 end F3.Props.C07
